@@ -82,6 +82,9 @@ def _decrypt(ct, key, alg, iv=None):
 
 
 # ---------------------------------------------------------------------------- S2K stand-in
+REAL_DERIVE_KEY = F.String2Key.derive_key
+
+
 class S2K:
     log = []
 
